@@ -235,6 +235,22 @@ func genC01(g *Gen, tier string, emit func(op string, args ...string)) {
 		emit("marshal", "1", itoa(g.Intn(256)), hx(g.Bytes(16)), showAVPs(as))
 		emit("encodedlen", showAVPs(as))
 	}
+	// the size limit counts OCTETS on the wire, not list entries: as many attributes as a datagram can hold (2038
+	// empty ones fill it exactly), around that number, together with entries that take no room at all (types
+	// outside 0-255)
+	for _, spec := range [][2]int{{2038, 0}, {2038, 1}, {2037, 5}, {2039, 0}, {2039, 3}, {1000, 1500}, {0, 2500}, {1, 4095}} {
+		var as []avp
+		for i := 0; i < spec[0]+spec[1]; i++ {
+			// the omitted ones spread through the list
+			if spec[1] > 0 && (spec[0] == 0 || i%((spec[0]+spec[1])/spec[1]+1) == 0) && countInvalid(as) < spec[1] {
+				as = append(as, avp{g.Pick(-1, 256, 1000), nil})
+			} else {
+				as = append(as, avp{g.Pick(1, 2, 255), nil})
+			}
+		}
+		emit("marshal", "1", itoa(g.Intn(256)), hx(g.Bytes(16)), showAVPs(as))
+		emit("encodedlen", showAVPs(as))
+	}
 	if tier == "thorough" {
 		// exhaustive: every attribute region of <= 5 bytes over a small alphabet
 		alpha := []byte{0, 1, 2, 3, 5, 255}
@@ -432,4 +448,14 @@ func genC09(g *Gen, tier string, emit func(op string, args ...string)) {
 		}
 		emit("ops", showAVPs(init), strings.Join(ops, ","))
 	}
+}
+
+func countInvalid(as []avp) int {
+	n := 0
+	for _, a := range as {
+		if a.typ < 0 || a.typ > 255 {
+			n++
+		}
+	}
+	return n
 }
